@@ -12,6 +12,7 @@ corresponds to one or two of the reference (`swap; eval`, `cons`, `apply [; eval
 -/
 import ClvmProofs.Lemmas.RefMachine
 import ClvmProofs.Lemmas.RefLoops
+import ClvmProofs.Lemmas.RefBits
 import ClvmProofs.Lemmas.Interp.MachineStepWf
 import ClvmProofs.Lemmas.Interp.LiftCore
 
@@ -23,10 +24,10 @@ open Clvm Clvm.Interp Clvm.Alloc
 def coreAd0 : Adapters := Adapter.coreFragment (Proto.c01Adapters false)
 
 /-- opcodes of the classic operators whose per-operator agreement (`ref_op_eq_*`) is proved -/
-def provedOps : List Nat := [3, 4, 5, 6, 7, 8, 9, 10, 11, 12, 13, 14, 16, 17, 18, 19, 20, 21, 22, 23, 27, 32, 33, 34]
+def provedOps : List Nat := [3, 4, 5, 6, 7, 8, 9, 10, 11, 12, 13, 14, 16, 17, 18, 19, 20, 21, 22, 23, 24, 25, 26, 27, 32, 33, 34]
 
 /-- operators that end the comparison for now: everything that is not a proved classic operator —
-`logand`/`logior`/`logxor` (24–26), every operator the reference treats as unknown
+every operator the reference treats as unknown
 (and 29, 30 and the newer assigned opcodes, which are outside C01 anyway) -/
 def unprovedOp (ob : Bytes) : Bool := !(provedOps.any (fun k => ob == [UInt8.ofNat k]))
 
@@ -1164,7 +1165,7 @@ theorem dispatch_agree : DispatchAgree := by
       simpa [unprovedOp] using hu
     obtain ⟨k, hk, rfl⟩ := hex
     simp only [provedOps, List.mem_cons, List.mem_nil_iff, or_false] at hk
-    rcases hk with rfl | rfl | rfl | rfl | rfl | rfl | rfl | rfl | rfl | rfl | rfl | rfl | rfl | rfl | rfl | rfl | rfl | rfl | rfl | rfl | rfl | rfl | rfl | rfl
+    rcases hk with rfl | rfl | rfl | rfl | rfl | rfl | rfl | rfl | rfl | rfl | rfl | rfl | rfl | rfl | rfl | rfl | rfl | rfl | rfl | rfl | rfl | rfl | rfl | rfl | rfl | rfl | rfl
     · -- op_if
       rw [chiaOp_classic (name := "op_if") (f := Interp.opIf) ((smallNumber_kw how (by decide) (by decide)).2 rfl) rfl
         (by decide) (by decide) rfl]
@@ -1245,6 +1246,18 @@ theorem dispatch_agree : DispatchAgree := by
       rw [chiaOp_classic (name := "op_lsh") (f := Interp.opLsh) ((smallNumber_kw how (by decide) (by decide)).2 rfl) rfl
         (by decide) (by decide) rfl]
       exact Or.inr (opLsh_agree m al c haw hap)
+    · -- op_logand
+      rw [chiaOp_classic (name := "op_logand") (f := Interp.opLogand) ((smallNumber_kw how (by decide) (by decide)).2 rfl) rfl
+        (by decide) (by decide) rfl]
+      exact Or.inr (opLogand_agree m al c haw hap)
+    · -- op_logior
+      rw [chiaOp_classic (name := "op_logior") (f := Interp.opLogior) ((smallNumber_kw how (by decide) (by decide)).2 rfl) rfl
+        (by decide) (by decide) rfl]
+      exact Or.inr (opLogior_agree m al c haw hap)
+    · -- op_logxor
+      rw [chiaOp_classic (name := "op_logxor") (f := Interp.opLogxor) ((smallNumber_kw how (by decide) (by decide)).2 rfl) rfl
+        (by decide) (by decide) rfl]
+      exact Or.inr (opLogxor_agree m al c haw hap)
     · -- op_lognot
       rw [chiaOp_classic (name := "op_lognot") (f := Interp.opLognot) ((smallNumber_kw how (by decide) (by decide)).2 rfl) rfl
         (by decide) (by decide) rfl]
